@@ -1,3 +1,4 @@
+import re
 from vlib.gen import Unit, Fn, Adt, Raw
 from units.u_dcefx import UNIT as DCE
 
@@ -10,8 +11,10 @@ UNIT = Unit(
     properties=["C09", "C17"],
     rules=[("strip", "anf::"), ("strip", "goast::")],
     describe="go::compile::compile_cexpr_effect: a complex expression in effect position (value discarded) still emits exactly one Go statement "
-             "when it is a call, a dyn-trait call or `go`; control-flow forms never reach its panic!",
-    trusted=["the precondition `expr is not EMatch/EIf/EWhile` (the panic! arm) is NOT checked at the single call site in compile_aexpr_effect, which is outside the unit", "compile_cexpr / compile_go are external (uninterpreted results); only the fact that a statement carrying their result is emitted is proved"],
+             "when it is a call, a dyn-trait call or `go`; control-flow forms never reach its panic!; compile_go: `go e` is ONE go statement "
+             "calling the closure's apply function with the closure as its only argument",
+    trusted=["the precondition `expr is not EMatch/EIf/EWhile` (the panic! arm) is NOT checked at the single call site in compile_aexpr_effect, which is outside the unit", "compile_cexpr is external (uninterpreted result); only the fact that a statement carrying its result is emitted is proved",
+             "PARTIAL: compile_go's `.expect(..)` (a closure type without an apply function: compiler-internal invariant) is not claimed unreachable (assume(false), listed)"],
     items=goast_types + [
         Adt(file=ANF, kw="enum", name="ImmExpr", rules=["attrs"]),
         Adt(file=ANF, kw="enum", name="CExpr", rules=["attrs"]),
@@ -24,6 +27,14 @@ UNIT = Unit(
         ensures
             cexpr_is_effect(*expr) ==> r@.len() == 1,
             (*expr is ECall || *expr is EDynCall) ==> r@[0] == Stmt::Expr(go_call_of(goenv, expr)),
-            *expr matches CExpr::EGo { closure, .. } ==> r@[0] == go_stmt_of_go(goenv, &*closure),"""),
+            *expr matches CExpr::EGo { closure, .. } ==> is_go_of(goenv, *closure, r@[0]),"""),
+        Adt(file=G + "compile.rs", kw="struct", name="ClosureApplyFn", rules=["attrs", "pubfields", ("strip", "tast::")]),
+        Fn(file=G + "compile.rs", name="compile_go", ret="r",
+           obligation="`go e` becomes exactly one go statement calling the closure's apply function with the closure as its only argument",
+           rewrites=[(re.compile(r"let apply = find_closure_apply_fn\(goenv, &closure_ty\)\s*\.expect\(\"[^\"]*\"\);"),
+                      "let apply = match find_closure_apply_fn(goenv, &closure_ty) { Some(a) => a, None => { proof { assume(false); } unreached() } };", 1),
+                     (re.compile(r"\.clone\(\)"), ".vclone()", "*")],
+           contract="ensures is_go_of(goenv, *closure, r),",
+           ghost=[("let call_expr = compile_cexpr(goenv, &apply_call);", "line-after", "proof { assert(call_expr == go_call_of(goenv, &apply_call)); }")]),
     ],
 )
